@@ -15,6 +15,8 @@ import LncModel.Flush
 import LncModel.Cipher
 import LncModel.Record
 import LncModel.Noise
+import LncModel.Session
+import LncModel.Stack
 /-
   Line-protocol driver: one operation per input line, one canonical result per
   output line.  Imports model files only (no Mathlib, no proofs) so it links as
@@ -298,6 +300,11 @@ def pureStep (toks : List String) : String :=
     | _, _ => "bad-op"
   | ["noise.run", pat, imin, imax, rmin, rmax, pwSame, iExp, rExp, plen, script] =>
     noiseRun pat imin imax rmin rmax pwSame iExp rExp plen script
+  | ["stk.reads", k, sizes] =>
+    match k.toNat?, (sizes.splitOn ",").mapM String.toNat? with
+    | some k, some sz =>
+      ",".intercalate ((Lnc.Mailbox.Stack.rle (Lnc.Mailbox.Stack.appReadSizes k sz)).map fun (v, c) => s!"{v}x{c}")
+    | _, _ => "bad-op"
   | ["q.mks", n] => (n.toNat?).elim "bad-op" fun n => toString (mkS n)
   | _ => "bad-op"
 
@@ -310,6 +317,7 @@ structure DState where
   hsCli : Hs.Cli × List Msg := (.fail "uninit", [])
   hsSrv : List (Hs.Srv × List Msg) := []
   hsFailed : Bool := false
+  sess : Option Lnc.Mailbox.Session.St := none
 
 def parseKind (s : String) : Option Kind :=
   match s with
@@ -337,6 +345,22 @@ def uniApply (st : DState) (dir : Nat) (f : Dir → Except String Dir) : DState 
     match f d with
     | .ok d' => ({ st with dirs := st.dirs.set! dir d' }, "ok")
     | .error e => ({ st with failed := true }, "FAIL " ++ e)
+
+def sessEv (st : DState) (e : Lnc.Mailbox.Session.Ev) : DState × String :=
+  match st.sess with
+  | none => (st, "ok")   -- a mismatch was already reported for this sequence
+  | some s =>
+    match Lnc.Mailbox.Session.step s e with
+    | some s' => ({ st with sess := some s' }, "ok")
+    | none => ({ st with sess := none }, s!"FAIL event {repr e} is not enabled in the session model")
+
+def sessBlocked (st : DState) (e : Lnc.Mailbox.Session.Ev) : DState × String :=
+  match st.sess with
+  | none => (st, "ok")
+  | some s =>
+    match Lnc.Mailbox.Session.step s e with
+    | none => (st, "ok")
+    | some _ => ({ st with sess := none }, s!"FAIL the model would have let {repr e} return while the real call blocked")
 
 def step (st : DState) (toks : List String) : DState × String :=
   match toks with
@@ -367,6 +391,30 @@ def step (st : DState) (toks : List String) : DState × String :=
         if ms.isPrefixOf model then .ok d
         else .error s!"Recv results ({ms.length}) are not a prefix of the model's delivered messages ({model.length})"
     | _, _ => (st, "bad-op")
+  | ["sess.init"] => ({ st with sess := some (Lnc.Mailbox.Session.init 1 2 [7]) }, "ok")
+  | "sess.accept-ret" :: [] => sessEv st .acceptRet
+  | "sess.dial-ret" :: [] => sessEv st .dialRet
+  | ["sess.closed", "s"] => sessEv st .closedS
+  | ["sess.closed", "c"] => sessEv st .closedC
+  | ["sess.transfer"] => sessEv st .transfer
+  | ["sess.handshake-ok", ver] =>
+    match st.sess with
+    | none => (st, "ok")
+    | some s =>
+      -- the pattern the real sides selected must be the one the model's stored keys imply
+      let paired := s.srv.remote.isSome && s.cli.remote.isSome
+      if (ver == "paired") != paired then
+        ({ st with sess := none }, s!"FAIL handshake ran as {ver} but the model has paired={paired}")
+      else sessEv st .handshakeV2
+  | ["sess.early-accept-blocked"] => sessBlocked st .acceptRet
+  | ["sess.early-dial-blocked"] => sessBlocked st .dialRet
+  | ["sess.intruder", adm] =>
+    match st.sess with
+    | none => (st, "ok")
+    | some s =>
+      -- a passphrase-only client meets the server iff the server still listens on the passphrase rendezvous
+      let modelAdmits := s.srv.remote.isNone
+      if (adm == "1") != modelAdmits then (st, s!"FAIL intruder admitted={adm}, model admits={modelAdmits}") else (st, "ok")
   | ["hs.init", n] =>
     match n.toNat? with
     | some n => ({ st with hsCli := Hs.cliStart n, hsSrv := [(Hs.srvStart, [])], hsFailed := false }, "ok")
